@@ -20,3 +20,7 @@ Proof.
   - intros st Ho. destruct st; cbn in *; congruence.
   - intros st H. destruct st; cbn in *; congruence.
 Qed.
+
+From L2 Require Import Jobs.
+Lemma gen_jobs_cond : jobs_cond gen_ftables.
+Proof. split; cbn. intros st e st' H. by destruct st, e. Qed.
